@@ -1,6 +1,10 @@
 import Proofs.C20
 #print axioms C20.reachable_wf
 #print axioms C20.single_fault_atomic
+#print axioms C20.fault_is_reported
+#print axioms C20.single_fault_atomic_full
+#print axioms C20.success_complete_partial
+#print axioms C20.success_keeps_earlier
 #print axioms C20.ids_format_monotone
 #print axioms C20.id_has_request_day
 #print axioms C20.ids_unique_all_interleavings
